@@ -101,6 +101,11 @@ pub struct Dataset {
     /// when set, the cells of the striped sequence rows past the sequence end hold this symbol rank instead
     /// of the wildcard (as in `StripedSequence::sample`, which fills them with random symbols)
     pub pad: Option<u8>,
+    /// look-ahead rows the sequences were configured with BEFORE being configured for this run (sequence
+    /// objects reused after a run with a narrower motif)
+    pub pre_wrap: Option<usize>,
+    /// spare sequence rows of hand-built striped sequences (StripedSequence::new accepts any matrix large enough)
+    pub spare: usize,
 }
 
 #[derive(Clone, Debug, PartialEq)]
@@ -114,20 +119,24 @@ pub struct Params {
 pub fn datasets(quick: bool) -> Vec<Dataset> {
     let mut v = vec![
         // DNA ranks: A=0 C=1 T=2 G=3 N=4
-        Dataset { alpha: "dna", seqs: vec![vec![0, 1, 2, 3, 0], vec![3, 3, 1, 0, 2, 2], vec![2, 4, 0, 1, 1]], width: 2, pad: None },
-        Dataset { alpha: "dna", seqs: vec![vec![0, 1, 2, 3], vec![1, 1, 1, 1, 2], vec![3, 0, 3, 0, 4, 1], vec![2, 2, 0, 1]], width: 3, pad: None },
-        Dataset { alpha: "protein", seqs: vec![vec![0, 5, 9, 20, 3], vec![9, 9, 0, 17], vec![19, 18, 0, 5, 9, 9]], width: 2, pad: None },
+        Dataset { alpha: "dna", seqs: vec![vec![0, 1, 2, 3, 0], vec![3, 3, 1, 0, 2, 2], vec![2, 4, 0, 1, 1]], width: 2, pad: None, pre_wrap: None, spare: 0 },
+        Dataset { alpha: "dna", seqs: vec![vec![0, 1, 2, 3], vec![1, 1, 1, 1, 2], vec![3, 0, 3, 0, 4, 1], vec![2, 2, 0, 1]], width: 3, pad: None, pre_wrap: None, spare: 0 },
+        Dataset { alpha: "protein", seqs: vec![vec![0, 5, 9, 20, 3], vec![9, 9, 0, 17], vec![19, 18, 0, 5, 9, 9]], width: 2, pad: None, pre_wrap: None, spare: 0 },
         // degenerate weights: every window of sequence 1 (all G) contains a symbol with zero background frequency in the
         // other sequences, so the weighted draw cannot be built and the start must be kept (no draw consumed);
         // sequence 2 is hard-masked (N in every window of width 2)
-        Dataset { alpha: "dna", seqs: vec![vec![0, 0, 1, 1, 0], vec![3, 3, 3, 3, 3], vec![4, 2, 4, 0, 4, 1]], width: 2, pad: None },
+        Dataset { alpha: "dna", seqs: vec![vec![0, 0, 1, 1, 0], vec![3, 3, 3, 3, 3], vec![4, 2, 4, 0, 4, 1]], width: 2, pad: None, pre_wrap: None, spare: 0 },
         // padding cells of the striped rows hold A, not the wildcard (StripedSequence::new / ::sample build such sequences)
-        Dataset { alpha: "dna", seqs: vec![vec![0, 1, 2, 3, 0], vec![3, 3, 1, 0, 2, 2], vec![2, 4, 0, 1, 1]], width: 2, pad: Some(0) },
+        Dataset { alpha: "dna", seqs: vec![vec![0, 1, 2, 3, 0], vec![3, 3, 1, 0, 2, 2], vec![2, 4, 0, 1, 1]], width: 2, pad: Some(0), pre_wrap: None, spare: 0 },
+        // sequence objects that were configured for a narrower motif before (a second sampler run on the same data)
+        Dataset { alpha: "dna", seqs: vec![vec![0, 1, 2, 3], vec![1, 1, 1, 1, 2], vec![3, 0, 3, 0, 4, 1], vec![2, 2, 0, 1]], width: 3, pad: None, pre_wrap: Some(1), spare: 0 },
+        // hand-built striped sequences with 2 spare sequence rows
+        Dataset { alpha: "dna", seqs: vec![vec![0, 1, 2, 3, 0], vec![3, 3, 1, 0, 2, 2], vec![2, 4, 0, 1, 1]], width: 2, pad: None, pre_wrap: None, spare: 2 },
     ];
     if !quick {
-        v.push(Dataset { alpha: "dna", seqs: vec![vec![0, 1, 2, 3, 0, 1, 2], vec![3, 3, 1, 0, 2, 2], vec![2, 4, 0, 1, 1], vec![0, 0, 0, 3, 3]], width: 2, pad: None });
-        v.push(Dataset { alpha: "protein", seqs: vec![vec![0, 5, 9, 20, 3, 3], vec![9, 9, 0, 17, 1], vec![19, 18, 0, 5, 9, 9], vec![4, 4, 4, 20, 4]], width: 3, pad: None });
-        v.push(Dataset { alpha: "dna", seqs: vec![vec![0, 1, 2, 3, 0, 4, 4], vec![1, 2, 3, 0, 1, 2, 3], vec![3, 2, 1, 0, 3, 2, 1]], width: 3, pad: None });
+        v.push(Dataset { alpha: "dna", seqs: vec![vec![0, 1, 2, 3, 0, 1, 2], vec![3, 3, 1, 0, 2, 2], vec![2, 4, 0, 1, 1], vec![0, 0, 0, 3, 3]], width: 2, pad: None, pre_wrap: None, spare: 0 });
+        v.push(Dataset { alpha: "protein", seqs: vec![vec![0, 5, 9, 20, 3, 3], vec![9, 9, 0, 17, 1], vec![19, 18, 0, 5, 9, 9], vec![4, 4, 4, 20, 4]], width: 3, pad: None, pre_wrap: None, spare: 0 });
+        v.push(Dataset { alpha: "dna", seqs: vec![vec![0, 1, 2, 3, 0, 4, 4], vec![1, 2, 3, 0, 1, 2, 3], vec![3, 2, 1, 0, 3, 2, 1]], width: 3, pad: None, pre_wrap: None, spare: 0 });
     }
     v
 }
@@ -213,6 +222,12 @@ where
                         }
                     }
                     st = StripedSequence::new(m, len).expect("StripedSequence::new rejects a matrix of the right size");
+                }
+                if ds.spare > 0 {
+                    st = crate::cfgs::respread(st, &model::to_symbols::<A>(s), ds.spare);
+                }
+                if let Some(w) = ds.pre_wrap {
+                    st.configure_wrap(w);
                 }
                 st.configure_wrap(ds.width);
                 st
@@ -456,6 +471,8 @@ fn hist_json(ds: &Dataset, pr: &Params, arm: Forced, h: &Hist) -> Value {
         "alphabet": ds.alpha,
         "sequences": ds.seqs,
         "padding_symbol": ds.pad,
+        "pre_wrap": ds.pre_wrap,
+        "spare_rows": ds.spare,
         "width": ds.width,
         "mode": if pr.zoops { "zoops" } else { "oops" },
         "seeds": pr.seeds, "inertia": pr.inertia, "patience": pr.patience,
@@ -753,7 +770,7 @@ fn run_large(ctx: &mut Ctx, rep: &mut Report) {
             })
             .collect()
     };
-    let ds = Dataset { alpha: "dna", seqs: vec![mk(70_000, 0, 1), mk(68_500, 1, 2), mk(66_000, 0, 3)], width: 3, pad: None };
+    let ds = Dataset { alpha: "dna", seqs: vec![mk(70_000, 0, 1), mk(68_500, 1, 2), mk(66_000, 0, 3)], width: 3, pad: None, pre_wrap: None, spare: 0 };
     let params = [Params { zoops: false, seeds: 0, inertia: 0, patience: 0 }, Params { zoops: true, seeds: 2, inertia: 1, patience: 2 }];
     let mut idx = 1000u64;
     for pr in &params {
@@ -895,6 +912,8 @@ pub fn replay(_ctx: &mut Ctx, rep: &mut Report, v: &Value) {
         seqs: v["sequences"].as_array().unwrap().iter().map(model::ranks_from_json).collect(),
         width: v["width"].as_u64().unwrap() as usize,
         pad: v["padding_symbol"].as_u64().map(|x| x as u8),
+        pre_wrap: v["pre_wrap"].as_u64().map(|x| x as usize),
+        spare: v["spare_rows"].as_u64().unwrap_or(0) as usize,
     };
     let pr = Params {
         zoops: v["mode"].as_str().unwrap() == "zoops",
